@@ -136,7 +136,9 @@ Blocked(doc, op, path) == Impossible(op, path) \/ HasDesc(path)
                           \/ BlockedR(doc, Steppers(Bind(path, doc)), op \in {"Set", "SetOne"})
 
 \* ------------------------------------------------------------------ modifiers (menu of the checks)
-ApplyMod(md, x) == CASE md.m = "const" -> md.v [] md.m = "wrap" -> ANode(<<x>>) [] OTHER -> x    \* "same": reports unchanged
+\* "foreign": the modifier returns a value of a foreign Go kind for the data (a plain int64 / string / []any / map / nil on gen data, a
+\* gen.Node on simple data); md.v is the value it denotes
+ApplyMod(md, x) == CASE md.m \in {"const", "foreign"} -> md.v [] md.m = "wrap" -> ANode(<<x>>) [] OTHER -> x    \* "same": reports unchanged
 
 \* graft: doc plus whatever mx has along the single location l (creation for the *One forms)
 RECURSIVE Graft(_, _, _)
@@ -201,7 +203,11 @@ Undefined(doc, m) == (HasDesc(m.path) /\ (NestedSel(Sel(doc, m)) \/ LocDup(doc, 
                      \/ (m.op \in {"Remove", "RemoveOne", "Del", "DelOne"} /\ LocDup(doc, m.path))
 Allowed(doc, m, out) ==
   CASE out.r = "panic" -> FALSE
+    \* the documentation of Modify is silent on a modifier result of a foreign kind: the store law is that the call either reports an error
+    \* and leaves the data as it was, or succeeds and the location holds a value denoting the returned one (the ordinary Modify outcome
+    \* with md.v) - never success with a different value
     [] out.r = "err" -> Blocked(doc, m.op, m.path)
+                        \/ (m.op \in {"Modify", "ModifyOne"} /\ m.md.m = "foreign" /\ DocEq(out.after, doc))
     [] OTHER -> IF Impossible(m.op, m.path) THEN FALSE ELSE Undefined(doc, m) \/ AllowedOk(doc, m, out.after)
 
 (* Known defect C13-1 made precise.  The mutators read a slice with their own arithmetic (three copies): bounds        *)
